@@ -3,7 +3,7 @@
 // The real osmium::io::Writer (OPL encoder in real pool workers, real write thread, real queues and
 // futures) writes through a mock compressor registered in the library's CompressionFactory - the seam the
 // repo's own test_writer_with_mock_compression.cpp uses - whose j-th write() or whose close() throws; or
-// the OPL encoder itself throws in the pool worker (invalid way node location with locations_on_ways).
+// the OPL encoder itself throws in the pool worker (a tag value ending in an incomplete UTF-8 sequence).
 // Every schedule of producer, pool workers and write thread with <= k deviations is executed.
 //
 // ORACLE per execution: no deadlock / livelock / hang / leaked thread (scheduler); with a fault some call
@@ -97,11 +97,12 @@ void build(osmium::memory::Buffer& buf, const Obj& o, bool bad) {
     WayBuilder b{buf};
     b.set_id(o.id).set_version(o.version).set_changeset(o.changeset).set_uid(o.uid).set_timestamp(o.ts).set_visible(true);
     b.set_user(o.user);
-    { TagListBuilder tb{b}; for (auto& t : o.tags) tb.add_tag(t.first, t.second); }
+    // the bad way: a tag value ending in an incomplete UTF-8 sequence makes the OPL encoder throw std::out_of_range in the pool worker
+    { TagListBuilder tb{b}; for (auto& t : o.tags) tb.add_tag(t.first, t.second); if (bad) tb.add_tag("bad", "x\xE2\x82"); }
     {
         WayNodeListBuilder wb{b};
         for (size_t i = 0; i < o.refs.size(); ++i)
-            wb.add_node_ref(osmium::NodeRef{o.refs[i], (bad && i == 0) ? osmium::Location{int32_t(2000000000), int32_t(0)} : osmium::Location{int32_t(100 * o.refs[i]), int32_t(7)}});
+            wb.add_node_ref(osmium::NodeRef{o.refs[i], osmium::Location{int32_t(100 * o.refs[i]), int32_t(7)}});
     }
     buf.commit();
 }
